@@ -23,6 +23,7 @@ import (
 	"github.com/kardiachain/go-kardia/mainchain/blockchain"
 	"github.com/kardiachain/go-kardia/mainchain/genesis"
 	"github.com/kardiachain/go-kardia/mainchain/staking"
+	stypes "github.com/kardiachain/go-kardia/mainchain/staking/types"
 	"github.com/kardiachain/go-kardia/mainchain/tx_pool"
 	kproto "github.com/kardiachain/go-kardia/proto/kardiachain/types"
 	"github.com/kardiachain/go-kardia/types"
@@ -59,6 +60,13 @@ type World struct {
 	Powers []int64
 	Privs  []*types.DefaultPrivValidator
 	Vals   []*types.Validator
+	// Plan[k] = the validator list (power per validator identity, 0 = not in the list) the application reports when
+	// block k is executed; the block executor turns it into validator updates that are in force from height k+2
+	// (cstate.updateState).  nil: static set.
+	Plan map[uint64][]int64
+
+	setsMu sync.Mutex
+	sets   []*types.ValidatorSet // sets[h] = validator set of height h as updateState evolves it (index 0 unused)
 }
 
 // NewWorld builds n validators; powers must be non-increasing so that sorting the keys by
@@ -86,24 +94,114 @@ func NewWorld(powers []int64) *World {
 
 func (w *World) ValSet() *types.ValidatorSet { return types.NewValidatorSet(w.Vals) }
 
-// ProposerTable[h-1][r-1] = 1-based index of the proposer of round r at height h (static set).
-func (w *World) ProposerTable(maxH, maxR int) [][]int {
-	idx := map[common.Address]int{}
-	for i, p := range w.Privs {
-		idx[p.GetAddress()] = i + 1
+// SetAt returns (a copy of) the validator set of height h, priorities included, evolved the way
+// cstate.updateState does: set(k+2) = Increment(Update(Copy(set(k+1)), updates of block k), 1).
+func (w *World) SetAt(h int) *types.ValidatorSet {
+	w.setsMu.Lock()
+	defer w.setsMu.Unlock()
+	if len(w.sets) == 0 {
+		vs := w.ValSet()
+		w.sets = []*types.ValidatorSet{nil, vs, vs.CopyIncrementProposerPriority(1)}
 	}
-	out := make([][]int, maxH)
-	cur := w.ValSet()
-	for h := 1; h <= maxH; h++ {
-		out[h-1] = make([]int, maxR)
-		vs := cur.Copy()
-		for r := 1; r <= maxR; r++ {
-			out[h-1][r-1] = idx[vs.GetProposer().Address]
-			vs.IncrementProposerPriority(1)
+	for len(w.sets) <= h {
+		k := uint64(len(w.sets) - 2) // the block whose execution decides this set
+		n := w.sets[len(w.sets)-1].Copy()
+		if plan := w.Plan[k]; plan != nil {
+			// cstate.calculateValidatorSetUpdates: changed or new entries, and power 0 for whoever is missing
+			last := map[common.Address]int64{}
+			for _, v := range n.Validators {
+				last[v.Address] = v.VotingPower
+			}
+			var ups []*types.Validator
+			for i, pw := range plan {
+				addr := w.Privs[i].GetAddress()
+				if pw > 0 {
+					if old, ok := last[addr]; !ok || old != pw {
+						ups = append(ups, types.NewValidator(addr, pw))
+					}
+					delete(last, addr)
+				}
+			}
+			for addr := range last {
+				ups = append(ups, types.NewValidator(addr, 0))
+			}
+			if len(ups) > 0 {
+				if err := n.UpdateWithChangeSet(ups); err != nil {
+					panic(fmt.Sprintf("plan of block %d: %v", k, err))
+				}
+			}
 		}
-		cur.IncrementProposerPriority(1)
+		n.IncrementProposerPriority(1)
+		w.sets = append(w.sets, n)
+	}
+	return w.sets[h].Copy()
+}
+
+// IDOf: validator identity (1-based index into Privs) of an address, 0 if unknown.
+func (w *World) IDOf(a common.Address) int {
+	for i, p := range w.Privs {
+		if p.GetAddress().Equal(a) {
+			return i + 1
+		}
+	}
+	return 0
+}
+
+// IndexAt: position of validator id in the set of height h, -1 if it is not a member.
+func (w *World) IndexAt(h uint64, id int) int {
+	if w.Plan == nil {
+		return id - 1
+	}
+	idx, v := w.SetAt(int(h)).GetByAddress(w.Privs[id-1].GetAddress())
+	if v == nil {
+		return -1
+	}
+	return int(idx)
+}
+
+// PowersAt: power of every validator identity at height h (0: not a member).
+func (w *World) PowersAt(h int) []int64 {
+	out := make([]int64, len(w.Privs))
+	vs := w.SetAt(h)
+	for i, p := range w.Privs {
+		if _, v := vs.GetByAddress(p.GetAddress()); v != nil {
+			out[i] = v.VotingPower
+		}
 	}
 	return out
+}
+
+// ProposerTable[h-1][r-1] = identity of the proposer of round r at height h.
+func (w *World) ProposerTable(maxH, maxR int) [][]int {
+	out := make([][]int, maxH)
+	for h := 1; h <= maxH; h++ {
+		out[h-1] = make([]int, maxR)
+		vs := w.SetAt(h)
+		for r := 1; r <= maxR; r++ {
+			out[h-1][r-1] = w.IDOf(vs.GetProposer().Address)
+			vs.IncrementProposerPriority(1)
+		}
+	}
+	return out
+}
+
+// planOps makes the application report World.Plan (it stands for a deterministic application: every node gets it)
+type planOps struct {
+	BlockOps
+	w *World
+}
+
+func (o *planOps) CommitAndValidateBlockTxs(b *types.Block, lci stypes.LastCommitInfo, byz []stypes.Evidence) ([]*types.Validator, common.Hash, error) {
+	vals, app, err := o.BlockOps.CommitAndValidateBlockTxs(b, lci, byz)
+	if plan := o.w.Plan[b.Height()]; err == nil && plan != nil {
+		vals = nil
+		for i, pw := range plan {
+			if pw > 0 {
+				vals = append(vals, types.NewValidator(o.w.Privs[i].GetAddress(), pw))
+			}
+		}
+	}
+	return vals, app, err
 }
 
 // SignLog wraps a PrivValidator and records every signature request.
@@ -229,6 +327,9 @@ func BuildNode(w *World, id int, o Opts) (*Node, error) {
 	if o.WrapBO != nil {
 		ops = o.WrapBO(bo)
 	}
+	if w.Plan != nil {
+		ops = &planOps{BlockOps: ops, w: w}
+	}
 	be := cstate.NewBlockExecutor(store, log.New(), evp, ops)
 	ccfg := configs.TestConsensusConfig()
 	if o.RootDir != "" {
@@ -343,7 +444,11 @@ func (t *Ticker) Schedule(n consensus.VerifTimeout) {
 
 // SignVoteFor signs a vote of validator i (1-based) as an adversary holding its key would.
 func (w *World) SignVoteFor(i int, typ kproto.SignedMsgType, h uint64, r uint32, bid types.BlockID, ts time.Time) *types.Vote {
-	v := &types.Vote{ValidatorAddress: w.Privs[i-1].GetAddress(), ValidatorIndex: uint32(i - 1), Height: h, Round: r,
+	pos := w.IndexAt(h, i)
+	if pos < 0 {
+		pos = 0 // not a member at that height: any index is wrong
+	}
+	v := &types.Vote{ValidatorAddress: w.Privs[i-1].GetAddress(), ValidatorIndex: uint32(pos), Height: h, Round: r,
 		Timestamp: ts, Type: typ, BlockID: bid}
 	pv := v.ToProto()
 	if err := w.Privs[i-1].SignVote(ChainID, pv); err != nil {
